@@ -18,7 +18,7 @@ LEVEL = "exploration"
 RULE = ("every built-in data command x 1..5 inputs x rank 1-3 shapes x int/float dtypes x mask styles (nomask, all-false, random, "
         "single cell, all-but-one, all) x 3 payloads under the mask; CSV cases vary the number stored in missing cells; distinct by "
         "(command, n, rank, dtypes, mask classes, params)")
-REQUIRED_COUNTERS = ["mask_superset_checks", "mask_exact_checks", "payload_variation_checks", "masked_input_cells", "csv_payload_checks"]
+REQUIRED_COUNTERS = ["mask_superset_checks", "mask_exact_checks", "payload_variation_checks", "masked_input_cells", "csv_payload_checks", "follow_up_mask_checks"]
 ASSUMPTIONS = ["what is stored under result masks and fill values are not judged", "NaN/inf and zero-length arrays are never generated",
                "cases where the reference is undefined (constant arrays, equal thresholds, zero weight sums) only get check (a) and (c)"]
 
@@ -84,15 +84,15 @@ def run_case(ctx, case):
     for pi, payload in enumerate(case["payloads"]):
         specs = [arr.with_payload(s, payload if not fuzzy_in else payload) for s in case["inputs"]]
         inputs = [arr.build(s) for s in specs]
-        out, _ = arr.run_cmd(cmd, inputs, params, fuzzy_inputs=fuzzy_in)
+        out, prog_ = arr.run_cmd(cmd, inputs, params, fuzzy_inputs=fuzzy_in)
         outcomes.append(out.err and (out.inner() or out.err))
         if out.ok and isinstance(out.value, numpy.ndarray):
             digests.append(arr.digest(numpy.ma.asarray(out.value)) if False else _vis_digest(out.value))
         else:
             digests.append(None)
         if pi == 0:
-            first = (inputs, out)
-    inputs, out = first
+            first = (inputs, out, prog_)
+    inputs, out = first[0], first[1]
     union = _union_mask(inputs)
     ctx.count("masked_input_cells", int(union.sum()))
     if out.ok:
@@ -122,6 +122,21 @@ def run_case(ctx, case):
                         ctx.fail("%s:valid-cell-missing" % cmd, {"cell": i, "params": params, "inputs_at_cell": [arr.cells(a)[i] for a in inputs]})
             if len(ctx.samples) < 4 and union.any():
                 ctx.sample({"cmd": cmd, "params": params, "inputs": [arr.describe(a, 8) for a in inputs], "result": arr.describe(res, 8), "payloads": case["payloads"]})
+    # a later command on the same inputs: missing exactly where that input was missing (per the case's specification)
+    if out.ok and len(inputs) >= 1:
+        prog0 = first[2]
+        for k, spec0 in enumerate(case["inputs"][:3]):
+            ctx.count("follow_up_mask_checks")
+            nm = "In%d" % k
+            fo = arr.invoke(prog0, "FuzzyNot" if fuzzy_in else "Copy", "Follow%d" % k, {"InFieldName": nm})
+            want_mask = list(spec0["mask"]) if spec0["mask"] is not None else [False] * len(spec0["data"])
+            if fo.ok and isinstance(fo.value, numpy.ndarray):
+                got_mask = numpy.ma.getmaskarray(fo.value).ravel().tolist()
+                if got_mask != want_mask:
+                    extra = [i for i, (g, w) in enumerate(zip(got_mask, want_mask)) if g and not w]
+                    ctx.fail("%s:later-result-on-its-input-%s" % (cmd, "missing-where-input-present" if extra else "present-where-input-missing"),
+                             {"input": k, "cells": (extra or [i for i, (g, w) in enumerate(zip(got_mask, want_mask)) if w and not g])[:5], "params": params, "n_inputs": len(inputs)})
+                    break
     # (c) payload independence
     ctx.count("payload_variation_checks")
     if len(set(outcomes)) > 1:
